@@ -16,6 +16,7 @@ import (
 	"strings"
 
 	"github.com/hedzr/is"
+	"github.com/hedzr/is/term/color"
 	"github.com/hedzr/logg/slog"
 )
 
@@ -148,7 +149,7 @@ var c02Verbs = []c02Verb{{"Error", 2}, {"Warn", 3}, {"Info", 4}, {"Debug", 5}, {
 	{"Println", 8}, {"ErrorContext", 2}, {"WarnContext", 3}, {"InfoContext", 4}, {"DebugContext", 5}, {"TraceContext", 6}, {"PrintContext", 8},
 	{"PrintlnContext", 8}, {"OKContext", 9}, {"SuccessContext", 10}, {"FailContext", 11}, {"LogAttrs", -100}, {"Logit", -100}}
 
-var c02ArgLevels = []int{2, 3, 4, 5, 6, 7, 8, 9, 10, 11, 12, 33, 57, -2}
+var c02ArgLevels = []int{2, 3, 4, 5, 6, 7, 8, 9, 10, 11, 12, 33, 57, -2, 33, 57, 33, 57, 33, 57}
 var c02LoggerLevels = []int{7, 8, 2, 3, 4, 5, 6, 9, 10, 11, 12, 0, 1, 4, 6}
 
 type c02Logger struct {
@@ -333,6 +334,28 @@ func c02Body(r *run, rounds int, openOnly bool) {
 		open := openOnly || round%4 == 3 // the open stream: oracles only
 		slog.VerifResetGlobals()
 		r.emit("C17 reset", "ok")
+		for _, v := range []int{33, 57} {
+			// the custom severities of the round: unregistered, or registered with no / one / two colors
+			how := g.intn(4)
+			if how == 0 {
+				continue
+			}
+			title := fmt.Sprintf("C2L%d", v)
+			clr, bg := -1, -1
+			var opts []slog.RegOpt
+			switch how {
+			case 2:
+				clr = 31 + g.intn(6)
+				opts = append(opts, slog.RegWithColor(color.Color(clr)))
+			case 3:
+				clr, bg = 31+g.intn(6), 1+g.intn(5)
+				opts = append(opts, slog.RegWithColor(color.Color(clr), color.Color(bg)))
+			}
+			if err := slog.RegisterLevel(slog.Level(v), title, opts...); err != nil {
+				r.violate(violation{What: "harness: registration refused", Actual: err.Error()})
+			}
+			r.emit(fmt.Sprintf("C17 reg %d %s x x x x x x %d %d 12 0", v, hxs(title), clr, bg), "ok")
+		}
 		flags := slog.LstdFlags &^ slog.Lcaller
 		if open {
 			flags = slog.Flags(g.next()) & (slog.Ldate | slog.Ltime | slog.Lmicroseconds | slog.LlocalTime | slog.Lattrs | slog.LattrsR | slog.Llineno |
